@@ -353,7 +353,8 @@ def shard_limits(ctx, k, payload):
         over = under = None
         if recipe == 'foreign_tax' and '1099-int:0.box_6' in inputs:
             limit = lim['foreign_tax_1116']['MarriedFilingJointly' if mfj else 'other']
-            others = sum(float(v or 0) for kk, v in inputs.items() if (kk.endswith('.box_6') and kk.startswith('1099-int:') or kk.endswith('.box_7') and kk.startswith('1099-div:')) and kk != '1099-int:0.box_6')
+            # every statement holds its boxes in dollars and cents: texts with sub-cent digits count rounded
+            others = sum(round(float(v or 0), 2) for kk, v in inputs.items() if (kk.endswith('.box_6') and kk.startswith('1099-int:') or kk.endswith('.box_7') and kk.startswith('1099-div:')) and kk != '1099-int:0.box_6')
             under = dict(inputs, **{'1099-int:0.box_6': f'{max(0.0, limit - others):.2f}'})
             over = dict(inputs, **{'1099-int:0.box_6': f'{max(0.0, limit - others) + 0.01 + data.draw(st.sampled_from([0, 1, 500])):.2f}'})
         elif recipe == 'educator' and '1040_s1.educator_expenses' in inputs:
@@ -362,7 +363,7 @@ def shard_limits(ctx, k, payload):
             over = dict(inputs, **{'1040_s1.educator_expenses': f'{limit + 0.01 + data.draw(st.sampled_from([0, 50])):.2f}'})
         elif recipe == 'hsa' and '8889:you.hsa_contributions' in inputs:
             limit = lim['hsa_self_only'][str(year)]
-            emp = float(inputs.get('8889:you.employer_contribution', '0') or 0)
+            emp = round(float(inputs.get('8889:you.employer_contribution', '0') or 0), 2)
             under = dict(inputs, **{'8889:you.hsa_contributions': f'{max(0.0, limit - emp):.2f}'})
             over = dict(inputs, **{'8889:you.hsa_contributions': f'{max(0.0, limit - emp) + 0.01 + data.draw(st.sampled_from([0, 100])):.2f}'})
         elif recipe == 'oid':
